@@ -422,6 +422,127 @@ def spaces(tier, variant, seed):
     sp.append(Space("mixed_snprintf_asprintf", list(range(len(MIX))), mx_cases, mx_one,
                     "standard conversions mixed with MPIR ones (libc renders the standard pieces); gmp_snprintf for EVERY size 0..len+1 in a guard zone; gmp_sprintf; gmp_asprintf block == length+1"))
 
+    # ---- every other entry point of the family must produce what gmp_snprintf produces ----
+    g_fprintf = lib.sym("gmp_fprintf")
+    g_fprintf.restype = c_int
+    g_fscanf_direct = lib.sym("gmp_fscanf")
+    g_fscanf_direct.restype = c_int
+    for nm in ("v_vsnprintf", "v_vsprintf", "v_vasprintf", "v_vfprintf", "v_vsscanf", "v_fscanf", "v_obstack_printf", "v_printf_capture"):
+        getattr(S, nm).restype = c_int
+    vs_pool = {}
+
+    def vstream():
+        if "vs" not in vs_pool:
+            vs_pool["vs"] = S.v_stream_new()
+        return vs_pool["vs"]
+
+    VFMT = [(b"%Zd", "z"), (b"%#Zx|%Qd", "zq"), (b"%20Zd|%-20Zd|%+.30Zd", "zzz"), (b"%d %Zo %s", "izs"), (b"%.3Ff|%Fe", "ff"), (b"%Nd", "n"), (b"%Mx %Md", "mM")]
+
+    def vf_cases(blk):
+        i = blk
+        for vi in range(len(SVV)):
+            yield (i, vi)
+
+    SVV = LV + [1 << 64, -(1 << 64), 10 ** 30 + 7, -(10 ** 40), al.PAT(5)["dense"]]
+
+    def vf_one(case, R):
+        i, vi = case
+        e = env()
+        fmt, kinds = VFMT[i]
+        v = SVV[vi]
+        z = e["z"][0]
+        z.set(v)
+        q = e["q"][0]
+        qv = Fraction(v, 3 + (abs(v) % 5))
+        q.set(qv.numerator, qv.denominator)
+        f = e["f"][0]
+        f.set_frac(Fraction(v % 4096) / 16)
+        nl_ = al.nl(abs(v))
+        arr = (ctypes.c_uint64 * max(nl_, 1))(*[(abs(v) >> (64 * k)) & M for k in range(nl_)])
+        args = []
+        for kch in kinds:
+            if kch == "z":
+                args.append(c_void_p(z.p))
+            elif kch == "q":
+                args.append(c_void_p(q.p))
+            elif kch == "f":
+                args.append(c_void_p(f.p))
+            elif kch == "i":
+                args.append(c_int(v & 0xFFFF))
+            elif kch == "s":
+                args.append(c_char_p(b"tail"))
+            elif kch == "n":
+                args += [arr, c_long(-nl_ if v < 0 else nl_)]
+            elif kch == "m":
+                args.append(c_ulong(v & M))
+            elif kch == "M":
+                args.append(c_long(lib.c_long_wrap(v)))
+        r0, ref = gfmt(R, fmt, args, fmt)
+        if ref is None:
+            return None
+        buf = e["buf"]
+        L = len(ref)
+
+        def expect(name, r, got):
+            if r != L or got != ref:
+                R.fail(name, "format %r value %x: returned %d, produced %r; gmp_snprintf gives %d, %r" % (fmt, v, r, got[:80] if got is not None else None, L, ref[:80]))
+        ctypes.memset(buf, 0xEE, L + 100)
+        r = S.v_vsnprintf(c_void_p(addressof(buf)), c_size_t(L + 50), fmt, *args)
+        expect("gmp_vsnprintf", r, buf.raw[:L])
+        ctypes.memset(buf, 0xEE, L + 100)
+        r = S.v_vsprintf(c_void_p(addressof(buf)), fmt, *args)
+        expect("gmp_vsprintf", r, buf.raw[:L])
+        if buf.raw[L:L + 1] != b"\0" or buf.raw[L + 1:L + 9] != b"\xee" * 8:
+            R.fail("gmp_vsprintf", "format %r: terminator missing or wrote beyond it" % fmt)
+        pp = c_void_p(0)
+        r = S.v_vasprintf(byref(pp), fmt, *args)
+        got = string_at(pp.value) if pp.value else None
+        expect("gmp_vasprintf", r, got)
+        if pp.value:
+            bs = S.v_block_size(pp.value)
+            if bs != L + 1:
+                R.fail("gmp_vasprintf", "format %r: block of %d bytes for a string of length %d" % (fmt, bs, L))
+            S.v_free(pp.value, bs if bs != (1 << 64) - 1 else L + 1)
+        vs = vstream()
+        for nm, fn_ in (("gmp_vfprintf", S.v_vfprintf), ("gmp_fprintf", g_fprintf)):
+            fp = S.v_open_write(vs, -1, 1)          # buffered stream, flushed by fclose
+            r = fn_(c_void_p(fp), fmt, *args)
+            S.v_fclose(fp)
+            n_ = S.v_stream_len(vs)
+            got = string_at(S.v_stream_data(vs), n_) if n_ else b""
+            expect(nm, r, got)
+        ctypes.memset(buf, 0, L + 100)
+        r = S.v_obstack_printf(c_void_p(addressof(buf)), c_size_t(L + 50), 0, fmt, *args)
+        if r != L or buf.raw[:L + 4] != b"pre:" + ref:
+            R.fail("gmp_obstack_vprintf", "format %r: returned %d, obstack holds %r; expected the prefix grown by %r" % (fmt, r, buf.raw[:L + 4][:80], ref[:60]))
+        ctypes.memset(buf, 0, L + 100)
+        r = S.v_printf_capture(c_void_p(addressof(buf)), c_size_t(L + 50), fmt, *args)
+        expect("gmp_vprintf", r, buf.raw[:L])
+        # scanf family reading back the first field
+        if kinds[0] == "z" and fmt in (b"%Zd",):
+            z2, z3 = e["z"][1], e["z"][2]
+            for nm in ("gmp_vsscanf", "gmp_vfscanf", "gmp_fscanf"):
+                z2.set(77)
+                if nm == "gmp_vsscanf":
+                    n = S.v_vsscanf(ref + b" rest", b"%Zd", c_void_p(z2.p))
+                else:
+                    data = ref + b" rest"
+                    fp = S.v_open_read(vs, data, len(data), -1, 0, 0, 0)
+                    n = (S.v_fscanf if nm == "gmp_vfscanf" else g_fscanf_direct)(c_void_p(fp), b"%Zd", c_void_p(z2.p))
+                    nxt = S.v_getc(fp)
+                    S.v_fclose(fp)
+                    if nxt != 32:
+                        R.fail(nm, "did not stop right after the number (next char %d)" % nxt)
+                if n != 1 or z2.get() != v:
+                    R.fail(nm, "reading %r: assigned %d, value %x" % (ref[:40], n, z2.get()))
+        if lib.alloc_errors():
+            R.fail("gmp_printf family", "allocator contract: " + lib.alloc_msg())
+            S.v_reset_errors()
+        return ("vfam", i, al.sgn(v), L // 8)
+
+    sp.append(Space("entry_point_variants", list(range(len(VFMT))), vf_cases, vf_one,
+                    "gmp_vsnprintf, vsprintf, vasprintf, vfprintf, fprintf, obstack_vprintf, vprintf (stdout captured) must produce exactly what gmp_snprintf produces for the same format and arguments; gmp_vsscanf, vfscanf, fscanf read it back"))
+
     # ---- sscanf reads back what printf wrote ----
     SC = [("%Zd", "d"), ("%Zx", "x"), ("%Zo", "o"), ("%#Zx", "i"), ("%#Zo", "i"), ("%Zd", "i"), ("%ZX", "x")]
     SV = LV + BIG
